@@ -5,18 +5,18 @@ CONSTANTS
   Z0 <- Z0C
   Family = "cyl"
   NrC = 3
-  NzC = 4
+  NzC = 3
   PZC = FALSE
   DR = 4
   DZ = 4
   Z0P = 16
   Mode = "free"
-  R2S <- R2Sdef_t_cyl_free
+  R2S <- R2Sdef_dev_cyl_count
   ZStep = 1
   CentralRule = "halfopen"
   SpanHandling = "central"
   ZWeight = "count"
-  Reading = "cells"
+  Reading = "volume"
   SpanRule = "whole"
 INVARIANT SingleCorrect
 INVARIANT PeriodicCorrect
